@@ -36,6 +36,8 @@ type UpScript struct {
 	// Tag: top two bits of every byte this upstream sends (multi-peer decoding)
 	Tag byte
 	Key uint64
+	// AbortOnAccept: reset every connection as soon as it has been accepted (before reading)
+	AbortOnAccept bool
 	// TLS: the upstream speaks TLS (the proxy dials it with its `tls` option);
 	// half-close is a close_notify alert
 	TLS bool
@@ -105,6 +107,14 @@ func (p *ProxyUps) serve(addr string, c net.Conn, end *simnet.End, idx int) {
 		lk()
 		rec.Done, rec.DoneAt = true, e.S.Elapsed()
 		ulk()
+	}
+	if sc.AbortOnAccept {
+		end.Abort()
+		lk()
+		rec.RecvErr = io.ErrClosedPipe
+		ulk()
+		finish()
+		return
 	}
 	if sc.TLS {
 		tc := tls.Server(c, &tls.Config{Certificates: []tls.Certificate{ServerCert()}})
